@@ -56,7 +56,8 @@ class HelpersMachine(Machine):
         types = [rng.choice(["int", "float", "str", "bool", "int_none"]) for _ in range(nc)]
         if target == "rows_array":
             types = [rng.choice(["int", "float", "str", "bool", "default"]) for _ in range(nc)]
-        cfg["cols"] = COLS[:nc]
+        # column names in no particular (in particular: not alphabetical) order
+        cfg["cols"] = rng.sample(COLS + ["zeta", "alpha", "Mid", "b2"], nc)
         cfg["types"] = types
         # content handed to the constructor instead of appended later
         cfg["init_rows"] = []
@@ -222,7 +223,7 @@ class HelpersMachine(Machine):
             if rng.random() < 0.5:
                 return {"op": "append_short", "row": row[:k]}           # too few values
             lacking = {self.cols[i]: row[i] for i in range(len(self.cols)) if i != k}
-            return {"op": "append_lacking", "row": lacking}             # a column is missing
+            return {"op": "append_lacking", "row": [[k_, v_] for k_, v_ in lacking.items()]}
         if self.cols_known and n and rng.random() < c["p_fail"] * 0.5:
             q = rng.random()
             if q < 0.35:
@@ -241,13 +242,16 @@ class HelpersMachine(Machine):
                             "as_dict": rng.random() < 0.4}
         if r < 0.35 or n == 0:
             if not self.cols_known:
-                return {"op": "append_dict", "row": dict(zip(self.cols, row)), "extra": None}
+                order = list(range(len(self.cols)))
+                rng.shuffle(order)
+                return {"op": "append_dict", "row": [[self.cols[i], row[i]] for i in order],
+                        "extra": None}
             return {"op": "append_list", "row": row}
         if r < 0.6:
             extra = "bogus" if rng.random() < c["p_fail"] else None
             order = list(range(len(self.cols)))
             rng.shuffle(order)
-            return {"op": "append_dict", "row": {self.cols[i]: row[i] for i in order},
+            return {"op": "append_dict", "row": [[self.cols[i], row[i]] for i in order],
                     "extra": extra}
         if r < 0.95:
             sortable = [i for i, t in enumerate(self.types) if t != "int_none"]
@@ -518,6 +522,8 @@ class HelpersMachine(Machine):
             self.rows.append([self._cast(v, t) for v, t in zip(row, self.types)])
             return "ok", None
         if k == "append_dict":
+            # ordered pairs (older traces: a JSON object, i.e. keys in sorted order)
+            op = dict(op, row=dict(op["row"]))
             row = dict(op["row"])
             if set(row) != set(self.cols):
                 return "skip", None
@@ -552,6 +558,8 @@ class HelpersMachine(Machine):
             if not self.cols_known:
                 return "skip", None
             row = op["row"]
+            if k == "append_lacking":
+                row = dict(row)
             if (k == "append_short" and len(row) >= len(self.cols)) or \
                     (k == "append_lacking" and set(self.cols) <= set(row)):
                 return "skip", None
